@@ -27,6 +27,14 @@ class CbError(Exception):
     pass
 
 
+class CbBaseError(KeyboardInterrupt):
+    """an exception from the callback that does not derive from Exception (Ctrl-C, SystemExit …)"""
+
+
+class SpinDetected(BaseException):
+    """raised by the fault proxy when the code retries a failing read() thousands of times"""
+
+
 def build_tree(wd, c):
     """content tree in the damaged state; returns (files, orig contents, top path)"""
     files = [{'path': p, 'size': s} for p, s in zip(c['paths'], c['sizes'])]
@@ -64,12 +72,15 @@ class _FaultyFile:
 
     def read(self, *a):
         self._plan['calls'] += 1
-        if self._plan['fail_at'] is not None and self._plan['calls'] == self._plan['fail_at']:
+        fa = self._plan['fail_at']
+        if fa is not None and fa <= self._plan['calls'] < fa + self._plan.get('burst', 1):
+            self._plan['fired'] += 1
+            if self._plan['fired'] > 4000:
+                raise SpinDetected('read() retried > 4000 times on MemoryError without giving up')
             kind = self._plan.get('kind', 'oserror')
             if kind == 'oserror':
                 raise OSError(errno.EIO, 'injected I/O error')
             raise MemoryError('injected')
-        self._plan['log'].append(self._plan['yielded'])
         return self._fh.read(*a)
 
     def __getattr__(self, name):
@@ -101,14 +112,27 @@ def run_case(torf, wd, c):
     th, qu = shim.make_shims(sched)
     saved = (G.threading, G.queue, G.time_monotonic)
     saved_open = S.__dict__.get('open', None)
-    plan = {'calls': 0, 'fail_at': c.get('read_fault'), 'log': [], 'yielded': 0,
+    plan = {'calls': 0, 'fail_at': c.get('read_fault'), 'fired': 0, 'burst': c.get('read_fault_burst', 1),
             'kind': c.get('read_fault_kind', 'oserror')}
-    G.threading, G.queue, G.time_monotonic = th, qu, sched.clock
+    gate_nows = []
+
+    def clock():
+        # every time_monotonic() call made by the collecting thread is one evaluation of the interval gate
+        if shim.cur().name == 'main':
+            gate_nows.append(sched.now)
+        elif shim.cur().name == 'reader':
+            # the out-of-memory handler polls the clock in a loop without synchronisation operations:
+            # let time pass a little (1/64 s, exact in binary) on every look
+            sched.now += 0.015625
+        return sched.now
+
+    G.threading, G.queue, G.time_monotonic = th, qu, clock
     if c.get('read_fault') is not None or c.get('count_reads'):
         import builtins
         S.open = lambda p, mode='r', *a, **k: _FaultyFile(builtins.open(p, mode, *a, **k), plan)
     calls = []
     cb_exc = CbError('callback says no')
+    cb_base_exc = CbBaseError('callback interrupted')
     cbspec = c.get('cb')
 
     def user_cb(*args):
@@ -120,12 +144,15 @@ def run_case(torf, wd, c):
             rec = {'same_torrent': tor is t, 'done': done, 'total': total, 'piece': pi,
                    'hash': None if ph is None else bytes(ph).hex(), 'now': sched.now,
                    'exc': None if exc is None else exc_obs(torf, exc, index_of, cb_exc)}
+        rec['at_step'] = len(sched.trace)
         calls.append(rec)
         d = (cbspec.get('table') or {}).get(str(done))
         if d == 'cancel':
             return True
         if d == 'raise':
             raise cb_exc
+        if d == 'raise-base':
+            raise cb_base_exc
         return None
 
     res = {}
@@ -157,10 +184,13 @@ def run_case(torf, wd, c):
         'pieces_stored': t.metainfo['info'].get('pieces') if c['mode'] == 'generate' else None,
         'want_pieces': want_pieces,
         'total': len(want_pieces) // 20,
-        'read_calls': plan['calls'],
+        'read_calls': plan['calls'], 'fault_fired': plan['fired'],
+        'gate_nows': gate_nows,
+        'structure': {'pq_max': sched.queues[0].maxsize if sched.queues else None,
+                      'hq_max': sched.queues[1].maxsize if len(sched.queues) > 1 else None},
     }
     if 'exc' in res:
-        obs['result'] = {'raised': exc_obs(torf, res['exc'], index_of, cb_exc)}
+        obs['result'] = {'raised': exc_obs(torf, res['exc'], index_of, cb_exc, cb_base_exc)}
     elif 'ret' in res:
         obs['result'] = {'returned': res['ret']}
     else:
@@ -168,9 +198,11 @@ def run_case(torf, wd, c):
     return obs
 
 
-def exc_obs(torf, e, index_of, cb_exc=None):
-    if cb_exc is not None and e is cb_exc:
+def exc_obs(torf, e, index_of, cb_exc=None, cb_base_exc=None):
+    if (cb_exc is not None and e is cb_exc) or (cb_base_exc is not None and e is cb_base_exc):
         return {'kind': 'cb'}
+    if isinstance(e, SpinDetected):
+        return {'kind': 'spin', 'msg': str(e)}
     if isinstance(e, torf.VerifyContentError):
         return {'kind': 'content', 'piece': e.piece_index}
     if isinstance(e, torf.ReadError):
